@@ -23,6 +23,11 @@ type EP struct {
 	// structure the header bytes of *this input* dispatch to).
 	Attr  func(in []byte) string
 	Seeds [][]byte
+	// PlainSeeds are further valid-by-construction encodings handed to the decoder as they are (no mutation
+	// families): counted structures at EVERY count with a buffer of exactly the matching size.
+	PlainSeeds [][]byte
+	// ParamWords, for SMB messages: the offsets of the aligned 16-bit parameter words of Seeds[i] (i < 2)
+	ParamWords func(seed []byte) []int
 
 	// small scope
 	Alpha     []byte // text parser: its own delimiter alphabet (nil = binary decoder)
